@@ -1,6 +1,8 @@
 import SF.Props.C06
 #print axioms SF.C06.cog_eq
 #print axioms SF.C06.cti_eq_pearson
+#print axioms SF.C06.net_eq_kendall
+#print axioms SF.C06.net_loop_eq
 #print axioms SF.C06.sgn0_neg
 #print axioms SF.C06.sgn0_mono
 #print axioms SF.C06.kendallNum_neg
